@@ -70,17 +70,17 @@ MkImplies(a, b) ==
   ELSE NSeq("implies", <<a, b>>)
 
 \* BoolSem tree (sequence arguments, as serialised from the library or generated) -> N-form
-RECURSIVE Canon(_)
-Canon(e) ==
+RECURSIVE CanonE(_)
+CanonE(e) ==
   CASE e.op = "sym" -> NSym(e.n)
     [] e.op = "true" -> NTrue
     [] e.op = "false" -> NFalse
-    [] e.op = "not" -> MkNot(Canon(e.args[1]))
-    [] e.op = "and" -> MkAnd({Canon(e.args[j]) : j \in DOMAIN e.args})
-    [] e.op = "or" -> MkOr({Canon(e.args[j]) : j \in DOMAIN e.args})
-    [] e.op = "xor" -> MkXor([j \in DOMAIN e.args |-> Canon(e.args[j])])
-    [] e.op = "ite" -> MkIte(Canon(e.args[1]), Canon(e.args[2]), Canon(e.args[3]))
-    [] e.op = "implies" -> MkImplies(Canon(e.args[1]), Canon(e.args[2]))
+    [] e.op = "not" -> MkNot(CanonE(e.args[1]))
+    [] e.op = "and" -> MkAnd({CanonE(e.args[j]) : j \in DOMAIN e.args})
+    [] e.op = "or" -> MkOr({CanonE(e.args[j]) : j \in DOMAIN e.args})
+    [] e.op = "xor" -> MkXor([j \in DOMAIN e.args |-> CanonE(e.args[j])])
+    [] e.op = "ite" -> MkIte(CanonE(e.args[1]), CanonE(e.args[2]), CanonE(e.args[3]))
+    [] e.op = "implies" -> MkImplies(CanonE(e.args[1]), CanonE(e.args[2]))
 
 \* meaning of an N-form (row sets, as BoolSem.Sem)
 RECURSIVE SemN(_, _, _)
@@ -172,7 +172,7 @@ SynthReady(e) == ~HasOp(e, "ite") /\ ~HasOp(e, "implies") /\ ~WideOr(e)
 (***************************************************************************)
 (* Expression lists (sequences of <<name, tree>>), the list-level steps     *)
 (***************************************************************************)
-CanonList(L) == [k \in DOMAIN L |-> <<L[k][1], Canon(L[k][2])>>]
+CanonList(L) == [k \in DOMAIN L |-> <<L[k][1], CanonE(L[k][2])>>]
 Names(L) == [k \in DOMAIN L |-> L[k][1]]
 \* (which names are return symbols -- the "_ret" prefix -- is told by the harness: TLC strings are atomic)
 
